@@ -202,6 +202,7 @@ pub fn run_c07(ctx: &mut Ctx) {
          x transports answering reads and writes with 1..n bytes or Pending; the client releases request i+1 only after EndRequest i reached it. Oracle: independent record decoder on the byte log + handler invocation log. Non-trivial: all; distinct by case");
     let mut rng = ctx.rng.fork();
     for ci in 0..ctx.n(1500, 8000) {
+        if or.saturated() { or.count("stopped_early_saturated"); break; }
         let k = 1 + rng.usize_below(4);
         let mc = 1 + rng.usize_below(100);
         let b = *rng.pick(&[64usize, 128, 256, 1024, 8192]);
@@ -232,6 +233,7 @@ pub fn run_c07(ctx: &mut Ctx) {
 pub fn c13_conn(ctx: &mut Ctx, log: &mut Log, im: &mut Impl, or: &mut Oracle) {
     let mut rng = ctx.rng.fork();
     for ci in 0..ctx.n(250, 5000) {
+        if or.saturated() { or.count("stopped_early_saturated"); break; }
         let k = 1 + rng.usize_below(3);
         let mc = 1 + rng.usize_below(4);
         let b = *rng.pick(&[64usize, 128, 1024, 8192]);
@@ -290,6 +292,7 @@ pub fn run_c08(ctx: &mut Ctx) {
         }
     }
     for ci in 0..ctx.n(1500, 8000) {
+        if or.saturated() { or.count("stopped_early_saturated"); break; }
         let k = 1 + rng.usize_below(2);
         let mc = 1 + rng.usize_below(100);
         let b = *rng.pick(&[128usize, 256, 8192]);
@@ -367,6 +370,7 @@ pub fn run_c11(ctx: &mut Ctx) {
          followed by 0..2 further requests on the same connection; C07 transport patterns. Oracle: record decoder on the byte log + handler log. Non-trivial: all; distinct by case");
     let mut rng = ctx.rng.fork();
     for ci in 0..ctx.n(2000, 10000) {
+        if or.saturated() { or.count("stopped_early_saturated"); break; }
         let k = 1 + rng.usize_below(3);
         let mc = 1 + rng.usize_below(50);
         let b = *rng.pick(&[128usize, 256, 8192]);
@@ -484,6 +488,7 @@ pub fn run_c12(ctx: &mut Ctx) {
         }
     }
     for ci in 0..ctx.n(25, 120) {
+        if or.saturated() { or.count("stopped_early_saturated"); break; }
         let k = 1 + rng.usize_below(2);
         let mc = 1 + rng.usize_below(50);
         let b = *rng.pick(&[128usize, 1024]);
@@ -561,6 +566,7 @@ pub fn c14_conn(ctx: &mut Ctx, log: &mut Log, im: &mut Impl, or: &mut Oracle) {
     let mut rng = ctx.rng.fork();
     let thorough = ctx.tier_thorough || ctx.widen;
     for ci in 0..ctx.n(100, 600) {
+        if or.saturated() { or.count("stopped_early_saturated"); break; }
         let k = 1 + rng.usize_below(3);
         let mc = 1 + rng.usize_below(50);
         let b = *rng.pick(&[128usize, 1024]);
